@@ -127,10 +127,10 @@ FIXED = {
  "fs:missing-bucket-reported-as-missing-key": "cc244fc",
  "fs:delete-objects-in-missing-bucket": "0f31b61",
  "fs:head-without-etag": "42c2f29",
- "fs:complete-missing-part-internal-error": "0932917", "fs:failed-complete-consumes-upload": "0932917",
- "fs:unknown-upload-code": "38336b0", "fs:list-parts-unknown-upload": "38336b0",
- "fs:part-number-not-validated": "531fc88",
- "fs:stale-checksum-after-complete": "cf67827", "fs:stale-metadata-after-complete": "cf67827",
+ "fs:complete-missing-part-internal-error": "0096ef4", "fs:failed-complete-consumes-upload": "0096ef4",
+ "fs:unknown-upload-code": "4609ab3", "fs:list-parts-unknown-upload": "4609ab3",
+ "fs:part-number-not-validated": "205d9a8",
+ "fs:stale-checksum-after-complete": "47e9b00", "fs:stale-metadata-after-complete": "47e9b00",
 }
 # repairs whose text says explicitly that it describes the code before the repair
 BEFORE = {"fs:head-missing-key-code", "fs:delete-missing-key-error", "fs:missing-bucket-reported-as-missing-key",
